@@ -585,6 +585,12 @@ pub fn k10(dir: &str, thorough: bool, seed: u64) {
         s("a -?? b\nb -?? a\n$a: f(b) & !f_1\n$b: a\n"),
         s("a -?? c\nb -?? c\nc -?? a\n$c: g(a, b) | g_10\n$a: c\n"),
         s("a -?? b\nb -?? a\n$a: h(b) ^ h_0\n$b: h(a) & k\n"),
+        // constant arguments of uninterpreted functions, next to other uses of the same function
+        s("a -?? b\nb -?? a\n$a: g(false) => g(b)\n$b: a\n"),
+        s("a -?? b\nb -?? a\n$a: g(true) & !g(b)\n$b: g(false) | a\n"),
+        s("a -?? c\nb -?? c\nc -?? a\n$c: f(true, a) & !f(b, a)\n$a: c\n"),
+        s("a -?? c\nb -?? c\nc -?? a\n$c: f(a, false) ^ f(b, true)\n$a: f(true, false) | c\n"),
+        s("a -?? b\nb -?? a\n$a: g(g(true)) <=> g(b)\n$b: g(!a)\n"),
     ];
     let n = if thorough { 400 } else { 40 };
     for _ in 0..n {
